@@ -275,7 +275,7 @@ def rand_grid_desc(rng, mk):
     rows, cols = rng.randint(2, 5), rng.randint(2, 5)
     n = rng.randint(2, min(6, rows * cols))
     encs = [1, 2] if rng.random() < 0.6 else [1]
-    ov = [[1, [1]]] if rng.random() < 0.3 else []
+    ov = [[1, [1]]] if rng.random() < 0.55 else []
     cells = [(r, c) for r in range(rows) for c in range(cols)]
     rng.shuffle(cells)
     ags = []
